@@ -4,11 +4,20 @@ import MdkVerif.Model.Store
   exhibit (C19).
 
   * A storage method is a `Prog`: a tree of *lock sections*.  A section runs atomically (it is the
-    code executed while one lock is held): it updates the shared state and decides, from the state
-    it saw, how the method continues (another section, or `done r`).
+    code executed from one lock acquisition to the next acquisition or release): it updates the
+    shared state and decides, from the state it saw, how the method continues (another section, or
+    `done r`).  `sec` acquires a lock and releases it at the end of the step; `hold` acquires a lock
+    and KEEPS it while the rest of the method runs (a nested section: the sections that follow are
+    executed with that lock held; everything is released when the method is done); `act` is a step
+    that acquires nothing (code run under the locks already held, after an inner section ended).
   * A thread is a queue of operations; a configuration is the shared state, the thread pool
     (`Nat → queue`, so any number of threads) and the completion log; a schedule is any list of
-    thread ids, each entry lets that thread run its next section.
+    thread ids, each entry lets that thread run its next section.  `step` itself does not look at
+    the locks; `enabled c t` says that the lock `t`'s next step acquires is compatible with the locks
+    the threads hold, `respects c sched` that every step of a schedule is enabled.  Theorems about
+    un-nested sections hold for EVERY schedule; the nested-section theorem is about the schedules
+    that respect the locks (the ones the lock implementation allows), the deadlock theorem says that
+    such a schedule can always be extended.
   * `lockProg` gives, for every operation of the sequential store model, the section structure of
     the real method on each backend (memory: `inner` / `group_snapshots` RwLocks; sqlite: the
     connection mutex).  Its section sequence is tied to `Generated.lockShape` (extracted from the
@@ -27,7 +36,12 @@ abbrev Lock := Nat × Nat
 
 inductive Prog (σ ρ : Type) where
   | done (r : ρ)
+  /-- acquire `lk`, run `upd`, release `lk`; go on with `next` (chosen from the state seen) -/
   | sec (lk : Lock) (upd : σ → σ) (next : σ → Prog σ ρ)
+  /-- acquire `lk`, run `upd`, KEEP `lk`: `body` runs with `lk` held; released when the method is done -/
+  | hold (lk : Lock) (upd : σ → σ) (body : σ → Prog σ ρ)
+  /-- a step under the locks already held: acquires nothing -/
+  | act (upd : σ → σ) (next : σ → Prog σ ρ)
 
 namespace Prog
 variable {σ ρ : Type}
@@ -36,22 +50,66 @@ variable {σ ρ : Type}
 def run : Prog σ ρ → σ → σ × ρ
   | .done r, s => (s, r)
   | .sec _ upd next, s => run (next s) (upd s)
+  | .hold _ upd body, s => run (body s) (upd s)
+  | .act upd next, s => run (next s) (upd s)
 
-/-- at most one section: the method completes in one step -/
+/-- at most one step: the method completes in one step -/
 def single : Prog σ ρ → Prop
   | .done _ => True
   | .sec _ _ next => ∀ s, ∃ r, next s = .done r
+  | .hold _ _ body => ∀ s, ∃ r, body s = .done r
+  | .act _ next => ∀ s, ∃ r, next s = .done r
 
-/-- the sections the program executes are, in order, a prefix of `l` -/
-def follows : List Lock → Prog σ ρ → Prop
-  | _, .done _ => True
-  | [], .sec _ _ _ => False
-  | l :: ls, .sec lk _ next => lk = l ∧ ∀ s, follows ls (next s)
+/-- the lock sections the program executes are, in order, a prefix of `l`, where a section (one per
+    ACQUISITION) is the list of locks held at that moment in acquisition order — the locks `h`
+    already held, then the acquired one -/
+def follows : Prog σ ρ → List Lock → List (List Lock) → Prop
+  | .done _, _, _ => True
+  | .sec _ _ _, _, [] => False
+  | .sec lk _ next, h, l :: ls => l = h ++ [lk] ∧ ∀ s, follows (next s) h ls
+  | .hold _ _ _, _, [] => False
+  | .hold lk _ body, h, l :: ls => l = h ++ [lk] ∧ ∀ s, follows (body s) (h ++ [lk]) ls
+  | .act _ next, h, l => ∀ s, follows (next s) h l
 
-/-- sections run under a shared (read) lock do not modify the state -/
+/-- sections entered by taking a shared (read) lock do not modify the state -/
 def readsPure : Prog σ ρ → Prop
   | .done _ => True
   | .sec lk upd next => (lk.2 = 0 → ∀ s, upd s = s) ∧ ∀ s, readsPure (next s)
+  | .hold lk upd body => (lk.2 = 0 → ∀ s, upd s = s) ∧ ∀ s, readsPure (body s)
+  | .act _ next => ∀ s, readsPure (next s)
+
+/-- no nested section: `sec` only -/
+def flat : Prog σ ρ → Prop
+  | .done _ => True
+  | .sec _ _ next => ∀ s, flat (next s)
+  | .hold _ _ _ => False
+  | .act _ _ => False
+
+/-- `some r` iff the program is `done r` -/
+def isDone : Prog σ ρ → Option ρ
+  | .done r => some r
+  | _ => none
+
+/-- one step in state `s`: the new state, what is left, and the lock that stays held (if any) -/
+def adv : Prog σ ρ → σ → σ × Prog σ ρ × List Lock
+  | .done r, s => (s, .done r, [])
+  | .sec _ upd next, s => (upd s, next s, [])
+  | .hold lk upd body, s => (upd s, body s, [lk])
+  | .act upd next, s => (upd s, next s, [])
+
+/-- the lock the next step acquires -/
+def acquires : Prog σ ρ → Option Lock
+  | .sec lk _ _ => some lk
+  | .hold lk _ _ => some lk
+  | _ => none
+
+/-- lock acquisition respects the order `rank` (on lock ids): every acquisition is of a lock whose
+    rank is at least `b`, where `b` exceeds the rank of every lock held -/
+def ordered (rank : Nat → Nat) : Nat → Prog σ ρ → Prop
+  | _, .done _ => True
+  | b, .sec lk _ next => b ≤ rank lk.1 ∧ ∀ s, ordered rank b (next s)
+  | b, .hold lk _ body => b ≤ rank lk.1 ∧ ∀ s, ordered rank (rank lk.1 + 1) (body s)
+  | b, .act _ next => ∀ s, ordered rank b (next s)
 
 /-- a one-section method -/
 def atomic (lk : Lock) (f : σ → σ × ρ) : Prog σ ρ :=
@@ -68,20 +126,26 @@ def fused (lk : Lock) (chk : σ → Bool) (err : ρ) (act : σ → σ × ρ) : P
 /-- the continuation chosen by the first section when it runs in state `s` -/
 def cont : Prog σ ρ → σ → Prog σ ρ
   | .sec _ _ next, s => next s
+  | .hold _ _ body, s => body s
+  | .act _ next, s => next s
   | p, _ => p
 
 /-- the state change made by the first section when it runs in state `s` -/
 def effect : Prog σ ρ → σ → σ
   | .sec _ upd _, s => upd s
+  | .hold _ upd _, s => upd s
+  | .act upd _, s => upd s
   | _, s => s
 
 end Prog
 
-/-- a queued operation: its name `op`, what is left of it, and how many sections already ran -/
+/-- a queued operation: its name `op`, what is left of it, how many sections already ran, and the
+    locks it holds between steps (those taken by `hold`, in acquisition order) -/
 structure Item (ι σ ρ : Type) where
   op : ι
   rem : Prog σ ρ
   pc : Nat
+  held : List Lock := []
 
 structure Cfg (ι σ ρ : Type) where
   st : σ
@@ -93,20 +157,57 @@ variable {ι σ ρ : Type}
 def setThr (thr : Nat → List (Item ι σ ρ)) (t : Nat) (q : List (Item ι σ ρ)) : Nat → List (Item ι σ ρ) :=
   fun u => if u = t then q else thr u
 
-/-- thread `t` runs its next section (no-op if it has nothing left) -/
+/-- thread `t` runs its next section (no-op if it has nothing left).  When what is left after the
+    step is `done r` the operation completes in this very step (and releases every lock it held). -/
 def step (c : Cfg ι σ ρ) (t : Nat) : Cfg ι σ ρ :=
   match c.thr t with
   | [] => c
   | it :: rest =>
-    match it.rem with
-    | .done r => { st := c.st, thr := setThr c.thr t rest, log := c.log ++ [(t, it.op, r)] }
-    | .sec _ upd next =>
-      match next c.st with
-      | .done r => { st := upd c.st, thr := setThr c.thr t rest, log := c.log ++ [(t, it.op, r)] }
-      | .sec lk' upd' next' =>
-        { st := upd c.st, thr := setThr c.thr t ({ op := it.op, rem := .sec lk' upd' next', pc := it.pc + 1 } :: rest), log := c.log }
+    match (it.rem.adv c.st).2.1.isDone with
+    | some r => { st := (it.rem.adv c.st).1, thr := setThr c.thr t rest, log := c.log ++ [(t, it.op, r)] }
+    | none =>
+      { st := (it.rem.adv c.st).1,
+        thr := setThr c.thr t ({ op := it.op, rem := (it.rem.adv c.st).2.1, pc := it.pc + 1,
+                                 held := it.held ++ (it.rem.adv c.st).2.2 } :: rest),
+        log := c.log }
 
 def exec (c : Cfg ι σ ρ) (sched : List Nat) : Cfg ι σ ρ := sched.foldl step c
+
+/-! ## which steps the locks allow -/
+
+/-- two acquisitions of the same lock exclude each other unless both are shared -/
+def conflict (a b : Lock) : Bool := a.1 == b.1 && (a.2 != 0 || b.2 != 0)
+
+/-- the locks thread `u` holds between steps (only the operation at the head of its queue can be
+    under way) -/
+def Cfg.holds (c : Cfg ι σ ρ) (u : Nat) : List Lock :=
+  match c.thr u with
+  | it :: _ => it.held
+  | [] => []
+
+/-- the lock that `t`'s next step acquires (if any) conflicts with no lock held by any thread
+    (including `t` itself: the locks are not re-entrant) -/
+def enabled (c : Cfg ι σ ρ) (t : Nat) : Prop :=
+  ∀ it rest, c.thr t = it :: rest → ∀ lk, it.rem.acquires = some lk → ∀ u l, l ∈ c.holds u → conflict lk l = false
+
+/-- every step of the schedule is one the locks allow -/
+def respects (c : Cfg ι σ ρ) : List Nat → Prop
+  | [] => True
+  | t :: r => enabled c t ∧ respects (step c t) r
+
+/-- `enabled`, checked against the threads in `us` only (decidable; sound when all other threads
+    are idle, `Proofs.Locks.respects_of_respectsB`) -/
+def enabledB (c : Cfg ι σ ρ) (t : Nat) (us : List Nat) : Bool :=
+  match c.thr t with
+  | it :: _ =>
+    match it.rem.acquires with
+    | some lk => us.all (fun u => (c.holds u).all (fun l => !conflict lk l))
+    | none => true
+  | [] => true
+
+def respectsB (c : Cfg ι σ ρ) (us : List Nat) : List Nat → Bool
+  | [] => true
+  | t :: r => enabledB c t us && respectsB (step c t) us r
 
 /-- initial configuration: thread `t` is to run `ops t`, each op `i` being the program `prog i` -/
 def init (prog : ι → Prog σ ρ) (ops : Nat → List ι) (s0 : σ) : Cfg ι σ ρ :=
@@ -178,6 +279,95 @@ def stableB (K : CtaOps ι σ ρ) (c : Cfg ι σ ρ) (us : List Nat) : List Nat 
 
 end CtaOps
 
+/-! ## nested sections: an outer lock held across an inner section -/
+
+/-- the part of the state an outer lock protects, as a projection with an update -/
+structure Lens (σ β : Type) where
+  get : σ → β
+  set : β → σ → σ
+
+/-- which operations are NESTED sections and their parts.  A nested operation takes the outer lock
+    `(S, exclusive)` and does `pre` on the protected part `β` (step 1, the lock stays held); unless
+    `early` already answers, it takes the inner lock `lkI` and does `mid` (step 2: the inner section;
+    `mid` may depend on the protected part seen at step 1); after the inner lock is released it does
+    `post` on the protected part (which may depend on the state the inner section saw) and releases
+    the outer lock (step 3). -/
+structure NestOps (ι σ ρ β : Type) where
+  L : Lens σ β
+  S : Nat
+  is : ι → Bool
+  lkI : ι → Lock
+  pre : ι → β → β
+  early : ι → β → Option ρ
+  mid : ι → β → σ → σ
+  post : ι → σ → β → β
+  res : ι → ρ
+
+namespace NestOps
+variable {β : Type}
+
+/-- step 3 of a nested operation whose inner section saw `s1` -/
+def tail (K : NestOps ι σ ρ β) (i : ι) (s1 : σ) : Prog σ ρ :=
+  .act (fun s2 => K.L.set (K.post i s1 (K.L.get s2)) s2) (fun _ => .done (K.res i))
+
+/-- steps 2 and 3 of a nested operation that saw the protected part `b0` at step 1 -/
+def inner (K : NestOps ι σ ρ β) (i : ι) (b0 : β) : Prog σ ρ :=
+  .sec (K.lkI i) (K.mid i b0) (fun s1 => K.tail i s1)
+
+/-- the nested program -/
+def nested (K : NestOps ι σ ρ β) (i : ι) : Prog σ ρ :=
+  .hold (K.S, 1) (fun s => K.L.set (K.pre i (K.L.get s)) s) (fun s0 =>
+    match K.early i (K.L.get s0) with
+    | some r => .done r
+    | none => K.inner i (K.L.get s0))
+
+/-- what the three steps do when nothing runs in between -/
+def eff (K : NestOps ι σ ρ β) (i : ι) (s : σ) : σ × ρ :=
+  match K.early i (K.L.get s) with
+  | some r => (K.L.set (K.pre i (K.L.get s)) s, r)
+  | none =>
+    let s1 := K.L.set (K.pre i (K.L.get s)) s
+    let s2 := K.mid i (K.L.get s) s1
+    (K.L.set (K.post i s1 (K.L.get s2)) s2, K.res i)
+
+def describes (K : NestOps ι σ ρ β) (prog : ι → Prog σ ρ) : Prop :=
+  ∀ i, K.is i = true → prog i = K.nested i
+
+/-- the same operations, every nested one replaced by ONE section (under the outer lock) -/
+def fuse (K : NestOps ι σ ρ β) (prog : ι → Prog σ ρ) : ι → Prog σ ρ :=
+  fun i => if K.is i then Prog.atomic (K.S, 1) (K.eff i) else prog i
+
+/-- a section that does not take the outer lock neither reads nor writes the protected part:
+    it commutes with every change of that part, its continuation does not depend on it, and it
+    leaves it as it is -/
+def indep (K : NestOps ι σ ρ β) (upd : σ → σ) (next : σ → Prog σ ρ) : Prop :=
+  ∀ s x, upd (K.L.set x s) = K.L.set x (upd s) ∧ next (K.L.set x s) = next s ∧ K.L.get (upd s) = K.L.get s
+
+/-- a program made of un-nested sections, each of which either takes the outer lock or is
+    independent of the protected part -/
+def good (K : NestOps ι σ ρ β) : Prog σ ρ → Prop
+  | .done _ => True
+  | .sec lk upd next => (lk.1 ≠ K.S → K.indep upd next) ∧ ∀ s, good K (next s)
+  | .hold _ _ _ => False
+  | .act _ _ => False
+
+/-- thread `t`'s next step is step 1 of a nested operation that goes on to its inner section, or
+    step 3 of one: these steps have no counterpart in the run of the fused operations (the fused
+    operation runs where the INNER section ran) -/
+def skips (K : NestOps ι σ ρ β) (c : Cfg ι σ ρ) (t : Nat) : Bool :=
+  match c.thr t with
+  | it :: _ => K.is it.op && ((it.pc == 0 && (K.early it.op (K.L.get c.st)).isNone) || it.pc == 2)
+  | [] => false
+
+def reduce (K : NestOps ι σ ρ β) (c : Cfg ι σ ρ) : List Nat → List Nat
+  | [] => []
+  | t :: r => if K.skips c t then reduce K (step c t) r else t :: reduce K (step c t) r
+
+end NestOps
+
+/-- the completions of thread `t`, oldest first -/
+def logOf (log : List (Nat × ι × ρ)) (t : Nat) : List (Nat × ι × ρ) := log.filter (fun e => e.1 == t)
+
 /-! ## lock-level view: who holds and who waits (for deadlock freedom) -/
 
 /-- a lock-level snapshot of the thread pool: the locks each thread holds and the one it waits for -/
@@ -192,6 +382,10 @@ def LockState.waitsFor (L : LockState) (t u : Nat) : Prop :=
 /-- the protocol "never request a lock while holding one" -/
 def LockState.noNested (L : LockState) : Prop :=
   ∀ t, L.waits t ≠ none → L.holds t = []
+
+/-- the protocol "request a lock only if it is above (in `rank`) every lock held" -/
+def LockState.orderedBy (L : LockState) (rank : Nat → Nat) : Prop :=
+  ∀ t l, L.waits t = some l → ∀ h, h ∈ L.holds t → rank h < rank l
 
 /-- a wait-for chain t₀ → t₁ → … -/
 def LockState.chain (L : LockState) : List Nat → Prop
@@ -215,6 +409,26 @@ def LockState.ofPhases (ph : Nat → Phase) : LockState where
     | _ => none
 
 /-! ## the section structure of the storage methods -/
+
+/-- the sections `Generated.lockShape` lists for (backend, method): one per lock acquisition, each
+    the list of locks held at that moment in acquisition order, the acquired one last -/
+def shapeOf (b : Backend) (m : Nat) : Option (List (List Lock)) :=
+  let bn := match b with
+    | .mem => 0
+    | .sql => 1
+  (Generated.lockShape.find? (fun e => e.1 == bn && e.2.1 == m)).map (·.2.2.2.1)
+
+/-- the order in which locks may be taken while others are held: `group_snapshots` (lock 1) before
+    `inner` (lock 0); the sqlite connection (lock 2) is never combined with another lock -/
+def lockRank : Nat → Nat
+  | 1 => 0
+  | 0 => 1
+  | _ => 2
+
+/-- the locks of one section are taken in strictly increasing rank (in particular no lock twice) -/
+def stackOrdered (rank : Nat → Nat) : Nat → List Lock → Bool
+  | _, [] => true
+  | b, l :: ls => decide (b ≤ rank l.1) && stackOrdered rank (rank l.1 + 1) ls
 
 def lkInnerR : Lock := (0, 0)
 def lkInnerW : Lock := (0, 1)
@@ -295,18 +509,70 @@ def isRead : Op → Bool
 /-- the whole operation in one section -/
 def whole (lk : Lock) (op : Op) : Prog Store String := Prog.atomic lk (fun s => Store.step s op)
 
-/-- memory backend: one `inner` section per method, except `create_group_snapshot` (`inner.read`
-    then `group_snapshots.write`) and `rollback_group_to_snapshot` (`group_snapshots.write` then
-    `inner.write`).  (`save_message` used to be check-then-act — existence check under the read
+/-- the snapshot map, the part of the memory store that the `group_snapshots` lock protects -/
+def snapsLens : Lens Store (List Snap) :=
+  { get := fun s => s.snaps, set := fun x s => { s with snaps := x } }
+
+def lookSnap (b : List Snap) (gid name : Nat) : Option Snap := b.find? (fun p => p.gid == gid && p.name == name)
+
+/-- memory `create_group_snapshot` / `rollback_group_to_snapshot` as NESTED sections (lock order
+    `group_snapshots` → `inner`), the form they have once the `group_snapshots` write guard is held
+    across the capture + insert / across the restore:
+    * rollback: under `group_snapshots.write` the snapshot is removed from the map (`?`-return when
+      it is not there); with that guard still held `restore_group_scoped_snapshot` takes
+      `inner.write` and restores the group; then both guards are dropped;
+    * create: `group_snapshots.write` is taken (nothing is done yet); with it held
+      `create_group_scoped_snapshot` takes `inner.read` and captures the group; after `inner` is
+      released the capture is inserted into the map; then the guard is dropped. -/
+def memNest : NestOps Op Store String (List Snap) where
+  L := snapsLens
+  S := 1
+  is := fun op => match op with
+    | .snapCreate _ _ _ | .snapRollback _ _ => true
+    | _ => false
+  lkI := fun op => match op with
+    | .snapCreate _ _ _ => lkInnerR
+    | _ => lkInnerW
+  pre := fun op b => match op with
+    | .snapRollback g n => dropSnap g n b
+    | _ => b
+  early := fun op b => match op with
+    | .snapRollback g n => (match lookSnap b g n with
+        | none => some "err"
+        | some _ => none)
+    | _ => none
+  mid := fun op b s => match op with
+    | .snapRollback g n => (match lookSnap b g n with
+        | some p => restoreInner s p
+        | none => s)
+    | _ => s
+  post := fun op s1 b => match op with
+    | .snapCreate g n ts => dropSnap g n b ++ [takeSnap s1 g n ts]
+    | _ => b
+  res := fun _ => "ok"
+
+/-- memory backend: one `inner` section per method, except `create_group_snapshot` and
+    `rollback_group_to_snapshot`, which use BOTH locks:
+    * `nested = false` (the source up to the repair of finding `mem-snapshot-two-locks`): two SEPARATE
+      sections — create: `inner.read` then `group_snapshots.write`; rollback: `group_snapshots.write`
+      (a temporary guard) then `inner.write`;
+    * `nested = true` (the repaired source): `memNest`, `group_snapshots.write` held across the
+      `inner` section.
+    Which one the CURRENT source has is read off `Generated.lockShape` (`memSnapNested`).
+    (`save_message` used to be check-then-act — existence check under the read
     lock, insertion under the write lock; since /repo 6aa9b6e the check is inside the write-lock
     section.  Should the source regress, `Generated.lockShape` changes and
     `Props.C19.lockProg_follows_shape` no longer checks.) -/
-def memProg : Op → Prog Store String
+def memProgWith (nested : Bool) : Op → Prog Store String
   | .snapCreate gid name ts =>
+    if nested then memNest.nested (.snapCreate gid name ts)
+    else
     .sec lkInnerR (fun s => s) (fun s =>
       let p := takeSnap s gid name ts
       Prog.atomic lkSnapsW (fun s' => ({ s' with snaps := dropSnap gid name s'.snaps ++ [p] }, "ok")))
   | .snapRollback gid name =>
+    if nested then memNest.nested (.snapRollback gid name)
+    else
     .sec lkSnapsW (fun s => { s with snaps := dropSnap gid name s.snaps }) (fun s =>
       match findSnap s gid name with
       | none => .done "err"
@@ -324,6 +590,17 @@ def memProg : Op → Prog Store String
           | some s'' => (s'', if dominates g (c, p, i) then "true" else "false")
           | none => (s', "err")))
   | op => whole (if isRead op then lkInnerR else lkInnerW) op
+
+/-- the two shapes `tools/lockshape.py` can report for the two memory methods that use both locks -/
+def shapeTwoSections : List (List Lock) × List (List Lock) := ([[lkInnerR], [lkSnapsW]], [[lkSnapsW], [lkInnerW]])
+def shapeNested : List (List Lock) × List (List Lock) := ([[lkSnapsW], [lkSnapsW, lkInnerR]], [[lkSnapsW], [lkSnapsW, lkInnerW]])
+
+/-- does the CURRENT source hold `group_snapshots` across the `inner` section in
+    `create_group_snapshot` (method 27) and `rollback_group_to_snapshot` (method 28)? -/
+def memSnapNested : Bool :=
+  shapeOf .mem 27 == some shapeNested.1 && shapeOf .mem 28 == some shapeNested.2
+
+def memProg : Op → Prog Store String := memProgWith memSnapNested
 
 /-- sqlite backend: every `with_connection` / `connection.lock()` is one section.  Six methods
     call `find_group_by_mls_group_id` first (own section) and then open a second section. -/
@@ -394,12 +671,5 @@ def opGroup : Op → Option Nat
   | .snapCreate g _ _ => some g
   | .snapRelease g _ => some g
   | _ => none
-
-/-- the sections `Generated.lockShape` lists for (backend, method) -/
-def shapeOf (b : Backend) (m : Nat) : Option (List Lock) :=
-  let bn := match b with
-    | .mem => 0
-    | .sql => 1
-  (Generated.lockShape.find? (fun e => e.1 == bn && e.2.1 == m)).map (·.2.2.2.1)
 
 end MdkVerif.Locks
